@@ -14,7 +14,7 @@ RULE = ('operand pairs over linear table units (any admissible prefix), #system 
         'case; distinct by (op, u, v, exponent form, operand kinds)')
 SHARDS = {'quick': 16, 'thorough': 16}
 MIN_NONTRIVIAL = {'quick': 5000, 'thorough': 150000}
-REQUIRED_CLASSES = ['add', 'sub', 'mul', 'div', 'neg', 'pow-int', 'pow-pair', 'pow-float', 'pow-float-noninteger', 'reflected-number-left',
+REQUIRED_CLASSES = ['number-type:py', 'number-type:np.float64', 'number-type:np.int', 'number-type:ndarray', 'add', 'sub', 'mul', 'div', 'neg', 'pow-int', 'pow-pair', 'pow-float', 'pow-float-noninteger', 'reflected-number-left',
                     'number-right', 'array', 'scalar', 'different-units-same-dimension', 'total-cancellation', 'partial-cancellation',
                     'refuse-different-dimension', 'refuse-reciprocal-dimension', 'refuse-number-plus-dimensional', 'compound-operand']
 REQUIRED_MONITORS = ['base_value_compares', 'dimension_compares', 'unit_exponent_compares', 'refusals_demanded']
@@ -22,6 +22,7 @@ ASSUMPTIONS = ['units_ref factors come from the published tables', 'rtol 1e-9 (a
                'only total cancellation is required to drop units', 'fractional powers use positive magnitudes',
                'base values or results outside 1e+-290 are skipped and counted']
 KEY_FLOATEXP = 'C06-float-exponent-truncated'
+KEY_NPLEFT = 'C06-numpy-number-on-the-left-raises'
 
 
 def setup():
@@ -106,7 +107,7 @@ def cases(rng, tier, shard, nshards, ctx):
                 v = invert(same_dim_unit(rng, ctx, u)); kind = 'reciprocal'
             else:
                 v = None; kind = 'number'
-            yield dict(op=op, u=u, v=v, kind=kind, xa=pick(rng), xb=pick(rng), arr=arr, side=rng.choice(['right', 'left']))
+            yield dict(op=op, u=u, v=v, kind=kind, xa=pick(rng), xb=pick(rng), arr=arr, side=rng.choice(['right', 'left']), numtype=rng.choice(['py', 'py', 'np.float64', 'np.int', 'ndarray']))
         elif r < 0.62:
             op = rng.choice(['mul', 'div'])
             u = gen_unit(rng, ctx)
@@ -117,7 +118,7 @@ def cases(rng, tier, shard, nshards, ctx):
                 v = same_dim_unit(rng, ctx, u) if op == 'div' else invert(same_dim_unit(rng, ctx, u)); kind = 'cancel'
             else:
                 v = gen_unit(rng, ctx); kind = 'other'
-            yield dict(op=op, u=u, v=v, kind=kind, xa=pick(rng), xb=pick(rng), arr=arr, side=rng.choice(['right', 'left']))
+            yield dict(op=op, u=u, v=v, kind=kind, xa=pick(rng), xb=pick(rng), arr=arr, side=rng.choice(['right', 'left']), numtype=rng.choice(['py', 'py', 'np.float64', 'np.int', 'ndarray']))
         elif r < 0.68:
             yield dict(op='neg', u=gen_unit(rng, ctx), v=None, kind='neg', xa=pick(rng), xb=0, arr=arr, side='right')
         else:
@@ -163,7 +164,7 @@ def _run(case, ctx):
     if case['u'][0] != 'a' or (case['v'] is not None and case['v'][0] != 'a'):
         classes.append('compound-operand')
     xa = [case['xa'], case['xa'] * 2, case['xa'] * 0.25] if arr else [case['xa']]
-    xb = [case['xb'], case['xb'] * -1.5, case['xb'] * 3] if arr else [case['xb']]
+    xb = [case['xb'], case['xb'] * -1.5, case['xb'] * 3] if (arr or (case['v'] is None and case.get('numtype') == 'ndarray')) else [case['xb']]
     Fu, Fv = mu[0], mv[0]
     if not U.finite_ok(Fu, Fv):
         return outcome(skip='overflow')
@@ -190,9 +191,17 @@ def _run(case, ctx):
             if case['side'] == 'np.power':
                 return np.power(a, e)
             return a ** e
-        o = num(xb) if number_b else b
-        if number_b and arr and left:
-            o = list(xb) if False else xb[0]     # ndarray on the left would dispatch through numpy's ufunc, use a scalar
+        o = b
+        if number_b:
+            nt = case.get('numtype', 'py')
+            if nt == 'ndarray':
+                o = np.array(xb, dtype=float)
+            elif nt == 'np.float64':
+                o = np.float64(xb[0])
+            elif nt == 'np.int':
+                o = np.int64(xb[0])
+            else:
+                o = xb[0]
         l, r = (o, a) if left else (a, o)
         if op == 'add':
             return l + r
@@ -202,9 +211,21 @@ def _run(case, ctx):
             return l * r
         return l / r
 
-    if number_b and arr and left:
-        xb = [xb[0]] * len(xa)
+    if number_b:
+        nt = case.get('numtype', 'py')
+        classes.append('number-type:' + nt)
+        if nt == 'np.int':
+            xb = [float(int(xb[0]))] * len(xb)
+        if nt == 'ndarray':
+            if not arr:
+                xa = xa * len(xb) if len(xa) == 1 else xa      # scalar quantity with an array number broadcasts
+                Ba = [x * Fu for x in xa]
+        else:
+            xb = [xb[0]] * len(xa)
         Bb = [x for x in xb]
+        if nt == 'ndarray' and len(Bb) != len(Ba):
+            Bb = (Bb * len(Ba))[:len(Ba)] if len(Bb) == 1 else Bb
+            Ba = (Ba * len(Bb))[:len(Bb)] if len(Ba) == 1 else Ba
     # ---------------- expected
     L, Rr = (Bb, Ba) if left else (Ba, Bb)
     DL, DR = (mv[2], mu[2]) if left else (mu[2], mv[2])
@@ -261,7 +282,7 @@ def _run(case, ctx):
         exc = e_
     descr = dict(op=op, u=ut, v=vt, xa=xa, xb=xb if op not in ('neg', 'pow') else None, side=case.get('side'),
                  exponent=(case.get('n'), case.get('d'), case['kind']) if op == 'pow' else None)
-    fp = '%s|%s|%s|%s|%s|%s' % (op, ut, vt, case['kind'], case.get('side'), (case.get('n'), case.get('d')))
+    fp = '%s|%s|%s|%s|%s|%s|%s' % (op, ut, vt, case['kind'], case.get('side'), (case.get('n'), case.get('d')), case.get('numtype') if number_b else '')
     nontriv = (vt is not None and vt != ut) or left or op == 'pow' or case['kind'] == 'cancel'
     if refuse:
         mon['refusals_demanded'] = 1
@@ -269,7 +290,11 @@ def _run(case, ctx):
             devs.append(dev('sum-of-different-dimensions-accepted', dict(descr, result=repr(res)[:100])))
         return outcome(classes=classes, nontrivial=True, fp=fp, dev=devs, monitors=mon, sample=dict(descr, expected='error', observed=repr(exc)[:100]))
     if exc is not None:
-        devs.append(dev('valid-operation-raised', dict(descr, exc='%s: %s' % (type(exc).__name__, str(exc)[:150]))))
+        known = None
+        if number_b and left and case.get('numtype') in ('np.float64', 'np.int', 'ndarray') and isinstance(exc, AttributeError) \
+                and "has no attribute 'magnitude'" in str(exc):
+            known = KEY_NPLEFT
+        devs.append(dev('valid-operation-raised', dict(descr, numtype=case.get('numtype'), exc='%s: %s' % (type(exc).__name__, str(exc)[:150])), known=known))
         return outcome(classes=classes, nontrivial=nontriv, fp=fp, dev=devs, monitors=mon, sample=descr)
     # result re-expressed in base dimensions through the model factor of its reported units
     r_um = U.unitmap_from_real(res.baseunits)
@@ -327,5 +352,7 @@ def _run(case, ctx):
 
 
 def pinned(ctx):
-    return [(KEY_FLOATEXP, dict(op='pow', u=['a', '', 'm', 1, 1], v=None, kind='float', n=1, d=2, xa=4.0, xb=0, arr=False, side='operator')),
+    return [(KEY_NPLEFT, dict(op='mul', u=['a', '', 'm', 1, 1], v=None, kind='number', xa=3.0, xb=2.0, arr=False, side='left', numtype='ndarray')),
+            (KEY_NPLEFT, dict(op='add', u=['a', '', '%', 1, 1], v=None, kind='number', xa=3.0, xb=2.0, arr=False, side='left', numtype='np.float64')),
+            (KEY_FLOATEXP, dict(op='pow', u=['a', '', 'm', 1, 1], v=None, kind='float', n=1, d=2, xa=4.0, xb=0, arr=False, side='operator')),
             (KEY_FLOATEXP, dict(op='pow', u=['a', '', 'm', 2, 1], v=None, kind='float', n=1, d=4, xa=4.0, xb=0, arr=False, side='np.power'))]
